@@ -54,6 +54,72 @@ pub fn inherit_actor<F: std::future::Future>(fut: F) -> impl std::future::Future
     }
 }
 
+/// A stream adapter around an operator's output: polls `inner` on behalf of the actor of the task that
+/// *created* the adapter, and lets an armed fault plan replace the operator's `k`-th item (or its end of
+/// stream) by an error, or panic inside the operator.
+pub struct ScopedStream<S: futures::Stream> {
+    inner: S,
+    actor: Option<String>,
+    op: String,
+    k: usize,
+    done: bool,
+    err: fn() -> S::Item,
+}
+
+/// See [`ScopedStream`].
+pub fn scoped_stream<S: futures::Stream>(inner: S, op: String, err: fn() -> S::Item) -> ScopedStream<S> {
+    ScopedStream {
+        inner,
+        actor: current_actor(),
+        op,
+        k: 0,
+        done: false,
+        err,
+    }
+}
+
+impl<S: futures::Stream + Unpin> futures::Stream for ScopedStream<S> {
+    type Item = S::Item;
+
+    fn poll_next(
+        mut self: std::pin::Pin<&mut Self>,
+        cx: &mut std::task::Context<'_>,
+    ) -> std::task::Poll<Option<S::Item>> {
+        use std::task::Poll;
+        let this = &mut *self;
+        if this.done {
+            return Poll::Ready(None);
+        }
+        let polled = match this.actor.clone() {
+            Some(a) => ACTOR.sync_scope(a, || std::pin::Pin::new(&mut this.inner).poll_next(cx)),
+            None => std::pin::Pin::new(&mut this.inner).poll_next(cx),
+        };
+        match polled {
+            Poll::Pending => Poll::Pending,
+            Poll::Ready(item) => {
+                let action = fault(&this.op, this.k);
+                this.k += 1;
+                match action {
+                    FaultAction::None => {
+                        if item.is_none() {
+                            this.done = true;
+                        }
+                        Poll::Ready(item)
+                    }
+                    FaultAction::Error => {
+                        this.done = true;
+                        Poll::Ready(Some((this.err)()))
+                    }
+                    FaultAction::Panic => {
+                        this.done = true;
+                        panic!("verif: injected panic in operator {} at item {}", this.op, this.k - 1)
+                    }
+                }
+            }
+        }
+    }
+}
+
 /// A named yield point. Returns immediately unless a scheduler is armed on this thread.
 /// The recorded label is `<actor>/<name>` (`-` when the task has no actor).
 pub async fn point(name: impl Into<String>) {
